@@ -372,6 +372,19 @@ func c06Exec(x *Ctx) {
 				x.Fault("byte-mutation")
 				send(mutateBytes(r, b))
 			case 2:
+				if r.Pct(15) {
+					// crafted frames whose count field times the element size wraps around 16 or 32 bits
+					n, body := r.Pick(5042, 10083, 15124, 0xFFFF), 0
+					body = n * 13 % 65536
+					if body > 200 {
+						body = r.Intn(20)
+					}
+					typ := byte(r.Pick(Rwalk, Rwalk, Twalk, Rread, Twrite))
+					b := append([]byte{byte(9 + body), byte((9 + body) >> 8), 0, 0, typ, 1, 0, byte(n), byte(n >> 8)}, make([]byte, body)...)
+					x.Fault("raw-count-wraps")
+					send(b)
+					continue
+				}
 				b := make([]byte, r.Pick(1, 3, 4, 7, 8, 23, 100, 1000))
 				for k := range b {
 					b[k] = byte(r.Intn(256))
